@@ -53,6 +53,13 @@ indices_t generator_t::shuffled(const tensor_size_t feature, indices_cmap_t samp
     const auto shuffled_all_samples = shuffled(feature);
 
     auto shuffled = indices_t{samples.size()};
+    if (shuffled_all_samples.size() == 0)
+    {
+        // NB: the samples of a feature that is not shuffled stay where they are!
+        shuffled = samples;
+        return shuffled;
+    }
+
     for (tensor_size_t i = 0; i < samples.size(); ++i)
     {
         assert(samples(i) >= 0 && samples(i) < shuffled_all_samples.size());
